@@ -322,6 +322,7 @@ fn generate(ctx: &mut Ctx) -> Vec<Value> {
         i += 1;
     }
     cases.extend(same_host(ctx));
+    cases.extend(aliasing());
     cases
 }
 
@@ -402,6 +403,67 @@ fn same_host(ctx: &mut Ctx) -> Vec<Value> {
                 }
                 k += 1;
             }
+        }
+    }
+    cases
+}
+
+/// Resource layouts in which an IPv4 and an IPv6 block have the same
+/// leading bits (32.1.0.0/16 = 0x2001…, 42.0.0.0/12 = 0x2a0…): the broken
+/// repository's CA holds 32.1.0.0/16 and 2a00::/12, a healthy sibling in
+/// another module publishes VRPs for 2001:db8:1::/48 and 42.1.0.0/24. Nothing
+/// overlaps, so even under `unsafe-vrps = reject` the sibling's payload must
+/// not change when the first CA is rejected.
+fn aliasing() -> Vec<Value> {
+    let (a, b, c) = (MODULES[0], MODULES[1], MODULES[2]);
+    let ta_uri = format!("rsync://{c}/ta0.cer");
+    let ta_res = Res::v4(&["32.0.0.0/8", "42.0.0.0/8"]).with_v6("2001::/16").with_v6("2a00::/8").with_asn(64_000, 64_999);
+    let mut world = World::default();
+    world.tals.push(tal("tal0", 0, &[&ta_uri]));
+    let mut t0 = ca("t0", 0, &format!("{c}/t0/"), &ta_uri);
+    let mut v = version(1, T0 - HOUR, T0 + 7 * DAY);
+    v.objects.push(child_cert("bad.cer", 500, "bad", Res::v4(&["32.1.0.0/16"]).with_v6("2a00::/12").with_asn(64_100, 64_199)));
+    v.objects.push(child_cert("good.cer", 501, "good", Res::v4(&["42.0.0.0/12"]).with_v6("2001:db8::/32").with_asn(64_200, 64_299)));
+    t0.versions.push(v);
+    let mut bad = ca("bad", 1, &format!("{a}/bad/"), &format!("rsync://{c}/t0/bad.cer"));
+    let mut v = version(1, T0 - HOUR, T0 + 7 * DAY);
+    v.objects.push(roa("o0.roa", 10, 64_100, "32.1.2.0/24", None));
+    v.objects.push(roa("o1.roa", 11, 64_101, "2a00:1::/32", None));
+    bad.versions.push(v);
+    let mut good = ca("good", 2, &format!("{b}/good/"), &format!("rsync://{c}/t0/good.cer"));
+    let mut v = version(1, T0 - HOUR, T0 + 7 * DAY);
+    v.objects.push(roa("o0.roa", 10, 64_200, "2001:db8:1::/48", None));
+    v.objects.push(roa("o1.roa", 11, 64_201, "42.1.0.0/24", None));
+    v.objects.push(aspa("o2.asa", 12, 64_202, &[164_202]));
+    good.versions.push(v);
+    world.cas = vec![t0, bad, good];
+    let tas = vec![ta_file(&ta_uri, "t0", 0, ta_res)];
+    let points = |with_bad: bool| -> Vec<(String, usize)> {
+        let mut p = vec![("t0".to_string(), 0), ("good".to_string(), 0)];
+        if with_bad { p.push(("bad".to_string(), 0)) }
+        p
+    };
+    let mut cases = Vec::new();
+    for policy in [Policy::Reject, Policy::Warn, Policy::Accept] {
+        for mode in ["unserved", "fail", "bad-manifest"] {
+            if policy != Policy::Reject && mode != "unserved" { continue }
+            let mut w = world.clone();
+            let mut serve = Serve { tas: tas.clone(), points: points(true), rsync: vec![] };
+            match mode {
+                "unserved" => serve.points = points(false),
+                "fail" => serve.rsync.push(RsyncCtl { module: a.into(), mode: RsyncMode::Fail { code: 12 } }),
+                _ => w.ca_mut("bad").unwrap().versions[0].mft_fault = Fault::SigFlip,
+            }
+            let opts = EngineOpts { unsafe_vrps: policy, enable_aspa: true, ..Default::default() };
+            let scn = Scenario { world: w, opts: opts.clone(), runs: vec![run_spec(T0, serve, Order::Sorted)] };
+            let base = Scenario {
+                world: world.clone(), opts,
+                runs: vec![run_spec(T0, Serve { tas: tas.clone(), points: points(true), rsync: vec![] }, Order::Sorted)],
+            };
+            cases.push(json!({
+                "kind": "aliasing", "broken": a, "faults": [format!("{mode} {a} policy={}", policy.as_str())],
+                "scenario": to_json(&scn), "base": to_json(&base),
+            }));
         }
     }
     cases
